@@ -15,10 +15,17 @@ impl FsState {
     pub open spec fn has(&self, p: PathV) -> bool { self.nodes.contains_key(p) }
     pub open spec fn node(&self, p: PathV) -> Node { self.nodes[p].node }
     pub open spec fn mode(&self, p: PathV) -> int { self.nodes[p].mode }
-    // tree-shaped: every present non-root path has a present Dir parent
+    // tree-shaped: every present non-root path has a present Dir parent.
+    // (parent_ok is opaque so that instantiating wf does not create a new `has(..)` term: no matching loop p, parent(p), parent(parent(p)), ...)
+    #[verifier::opaque]
+    pub open spec fn parent_ok(&self, p: PathV) -> bool { p.len() > 0 ==> self.has(p.drop_last()) && self.node(p.drop_last()) is Dir }
     pub open spec fn wf(&self) -> bool {
-        forall|p: PathV| #![trigger self.has(p)] #![trigger self.nodes.contains_key(p)] self.has(p) && p.len() > 0 ==> self.has(p.drop_last()) && self.node(p.drop_last()) is Dir
+        forall|p: PathV| #![trigger self.has(p)] #![trigger self.nodes.contains_key(p)] self.has(p) ==> self.parent_ok(p)
     }
+    pub proof fn lemma_parent(&self, p: PathV)
+        requires self.wf(), self.has(p), p.len() > 0
+        ensures self.has(p.drop_last()), self.node(p.drop_last()) is Dir
+    { reveal(FsState::parent_ok); }
     // the node a path denotes when the last component is followed
     pub open spec fn follow(&self, p: PathV) -> Option<PathV> {
         if !self.has(p) { None } else { match self.node(p) { Node::Link(t) => t, _ => Some(p) } }
@@ -271,6 +278,7 @@ pub proof fn lemma_absent_desc(fs: FsState, d: PathV, p: PathV)
     ensures !fs.has(p)
     decreases p.len()
 {
+    reveal(FsState::parent_ok);
     if p.len() == d.len() { assert(p =~= d); }
     else if fs.has(p) {
         assert(is_prefix(d, p.drop_last()));
@@ -291,6 +299,7 @@ pub proof fn lemma_nondir_has_no_children(fs: FsState, d: PathV, p: PathV)
     ensures !fs.has(p)
     decreases p.len()
 {
+    reveal(FsState::parent_ok);
     if fs.has(p) {
         if p.len() == d.len() + 1 { assert(p.drop_last() =~= d); }
         else { assert(strictly_under(d, p.drop_last())); lemma_nondir_has_no_children(fs, d, p.drop_last()); }
@@ -302,6 +311,7 @@ pub proof fn lemma_prefixes_exist(fs: FsState, p: PathV, q: PathV)
     ensures fs.has(q), q.len() < p.len() ==> fs.node(q) is Dir
     decreases p.len()
 {
+    reveal(FsState::parent_ok);
     if q.len() == p.len() { assert(q =~= p); }
     else {
         assert(is_prefix(q, p.drop_last()));
